@@ -75,7 +75,7 @@ theorem bracket_dSeq (n : Nat) (nz : List α → Bool) (control : List Nat) (tar
 /-- a conditional gate whose translation is ONE line with the right matrix: same branch as the circuit's conditional
 gate, for a control list without repetition and a target below `2^len` -/
 theorem cond_op_equiv (n : Nat) (nz : List α → Bool) (g : GateTerm P) (bits : List Nat) (qs : List Nat) (M : LMat α)
-    (hU : embed n qs M = embed n bits (specMatrix g))
+    (hU : ∀ ψ : List α, ψ.length = 2 ^ n → LMat.mulVec (embed n qs M) ψ = LMat.mulVec (embed n bits (specMatrix g)) ψ)
     (control : List Nat) (target : Nat) (hnd : control.Nodup) (ht : target < 2 ^ control.length)
     (hc64 : control.all Sim.shiftOk = true) (hlen : control.length ≤ 64)
     (br : CQ1.Branch α) (hbr : BrInv n nz br)
@@ -92,7 +92,7 @@ theorem cond_op_equiv (n : Nat) (nz : List α → Bool) (g : GateTerm P) (bits :
     List.flatMap_nil, List.append_nil, ne_eq, not_true_eq_false, if_false]
   by_cases hf : ∀ i, ∀ (h : i < control.length), w.testBit control[i] = target.testBit i
   · have : cw = target := hiff.mpr ⟨hf, ht⟩
-    simp only [hf, if_true, this, CQ1.applyOn, hU, Spec.gateOn]
+    simp only [hf, if_true, this, CQ1.applyOn, hU ψ hbr.len, Spec.gateOn]
     simp [hnz]
   · have : ¬ cw = target := fun e => hf (hiff.mp e).1
     simp only [hf, if_false, this]
